@@ -97,10 +97,13 @@ def install(eng):
         returns=vc.Graph,
         locals={"provides": T.DictT(vc.Path, vc.Target), "unresolved": PS, "dependencies": vc.DepsT,
                 "dependents": vc.DepsT},
-        requires=[
-            "all(targets[k].name == k for k in targets)",                       # Workflow invariant (C19)
-            "forall(lambda u: InT(u) == (u in ValSet(targets)), Target)",      # definitions, made at the root:
-            "forall(lambda b, a: (a in deps0(b)) == PathDep(b, a), Target, Target)"],   # C03's relation
+        requires=["all(targets[k].name == k for k in targets)"],               # Workflow invariant (C19)
+        # definitions (fresh spec symbols naming parts of the entry state): InT = "is a target of this
+        # workflow", deps0 = C03's path-induced relation
+        defines=["InT", "deps0", "Reach"],
+        entry_assume=[
+            "forall(lambda u: InT(u) == (u in ValSet(targets)), Target)",
+            "forall(lambda b, a: (a in deps0(b)) == PathDep(b, a), Target, Target)"],
         modifies=["Graph.targets", "Graph.provides", "Graph.dependencies", "Graph.dependents", "Graph.unresolved",
                   "ghost:fin", "ghost:clock"],
         ensures=[
@@ -118,6 +121,10 @@ def install(eng):
             "p in Outs(b), a == b), Target, Target, Path)",
             "all(fs_exists(fs, p) for p in result.unresolved)",
             "forall(lambda b, a: implies(a in deps0(b), 0 <= fin[a] and fin[a] < fin[b]), Target, Target)",
+            # every input is an existing file or an output of a direct dependency (used by scheduling, C01)
+            "forall(lambda u, p: implies(InT(u) and p in Ins(u), fs_exists(fs, p) or any(p in Outs(a) for a in deps0(u))), Target, Path)",
+            "forall(lambda u, v: implies(InT(u) and InT(v) and u.name == v.name, u == v), Target, Target)",
+            "forall(lambda u, d: implies(d in deps0(u), InT(d) and InT(u)), Target, Target)",
         ],
         raises={
             # C04: the error names a defect that is really there
